@@ -1,4 +1,4 @@
-import ProcSim.Lemmas.LoaderC10
+import ProcSim.Lemmas.LoaderC10Check
 /-!
 # C10 — the loaded processor is exactly the usable part of the description
 
@@ -154,6 +154,135 @@ theorem C10_usable_part {d : Desc N} {p : Proc N} (h : load fold d = .ok p) : C1
   predsNodup := (C10_preds fold h).2
   inputsOriginal := (C10_ports fold h).1
   outputsOriginal := (C10_ports fold h).2
+
+/-! ## the checker decides the specification -/
+
+theorem nodupB_iff (l : List N) : nodupB l = true ↔ l.Nodup := by
+  induction l with
+  | nil => simp [nodupB]
+  | cons a t ih => simp [nodupB, ih]
+
+theorem sameSet_iff (a b : List N) : sameSet a b = true ↔ ∀ x, x ∈ a ↔ x ∈ b := by
+  simp only [sameSet, Bool.and_eq_true, List.all_eq_true, decide_eq_true_eq]
+  exact ⟨fun h x => ⟨h.1 x, h.2 x⟩, fun h => ⟨fun x => (h x).1, fun x => (h x).2⟩⟩
+
+theorem procNames_eq (p : Proc N) :
+    procNames p = (p.inPorts ++ p.inOut).map (·.name) ++ (p.outPorts ++ p.internal).map (·.model.name) := by
+  simp [procNames, Proc.allUnits, List.map_append, List.map_map, Function.comp_def]
+
+theorem edgeB_iff (p : Proc N) (a b : N) :
+    edgeB p a b = true ↔ ∃ f ∈ p.outPorts ++ p.internal, f.model.name = b ∧ a ∈ f.preds := by
+  simp only [edgeB, List.any_eq_true, Bool.and_eq_true, decide_eq_true_eq]
+
+theorem eq_of_nodup_map {α β : Type} (f : α → β) : ∀ {l : List α}, (l.map f).Nodup → ∀ {a b : α}, a ∈ l → b ∈ l →
+    f a = f b → a = b
+  | [], _, _, _, ha, _, _ => by simp at ha
+  | x :: t, hn, a, b, ha, hb, hab => by
+    simp only [List.map_cons, List.nodup_cons] at hn
+    rcases List.mem_cons.1 ha with ha | ha <;> rcases List.mem_cons.1 hb with hb | hb
+    · rw [ha, hb]
+    · exact absurd (by rw [← ha, hab]; exact List.mem_map_of_mem hb) hn.1
+    · exact absurd (by rw [← hb, ← hab]; exact List.mem_map_of_mem ha) hn.1
+    · exact eq_of_nodup_map f hn.2 ha hb hab
+
+/-- the predecessor clause of the checker, given that the units are exactly the live ones, each once -/
+theorem predsClause_iff (g : DG N) (p : Proc N) {t : List (N × List N)} {live : List N}
+    (hk : ∀ a b, g.keptConnT t a b = true ↔ g.KeptConn a b) (hl : ∀ u, u ∈ live ↔ g.Live u)
+    (hnd : (procNames p).Nodup) (hu : ∀ u, u ∈ procNames p ↔ g.Live u) :
+    ((p.outPorts ++ p.internal).all (fun f => nodupB f.preds &&
+        sameSet f.preds (live.filter (fun a => g.keptConnT t a f.model.name))) = true ∧
+      (p.inPorts ++ p.inOut).all (fun m => (live.filter (fun a => g.keptConnT t a m.name)).isEmpty) = true) ↔
+    ((∀ a b, edgeB p a b = true ↔ (g.KeptConn a b ∧ g.Live a ∧ g.Live b)) ∧
+      ∀ f ∈ p.outPorts ++ p.internal, f.preds.Nodup) := by
+  have hfil : ∀ a b, a ∈ live.filter (fun a => g.keptConnT t a b) ↔ g.Live a ∧ g.KeptConn a b := fun a b => by
+    rw [List.mem_filter, hl, hk]
+  rw [procNames_eq] at hnd
+  have hnd' := List.nodup_append.1 hnd
+  have hdest : ∀ f ∈ p.outPorts ++ p.internal, g.Live f.model.name := fun f hf =>
+    (hu _).1 (by rw [procNames_eq]; exact List.mem_append_right _ (List.mem_map_of_mem hf))
+  have hsrc : ∀ m ∈ p.inPorts ++ p.inOut, g.Live m.name := fun m hm =>
+    (hu _).1 (by rw [procNames_eq]; exact List.mem_append_left _ (List.mem_map_of_mem hm))
+  simp only [Bool.and_eq_true, List.all_eq_true, nodupB_iff, sameSet_iff, List.isEmpty_iff,
+    List.eq_nil_iff_forall_not_mem, hfil, edgeB_iff]
+  constructor
+  · rintro ⟨hD, hS⟩
+    refine ⟨fun a b => ⟨?_, ?_⟩, fun f hf => (hD f hf).1⟩
+    · rintro ⟨f, hf, rfl, ha⟩
+      have := ((hD f hf).2 a).1 ha
+      exact ⟨this.2, this.1, hdest f hf⟩
+    · rintro ⟨hkc, hla, hlb⟩
+      have hb : b ∈ procNames p := (hu b).2 hlb
+      rw [procNames_eq] at hb
+      rcases List.mem_append.1 hb with hb | hb
+      · obtain ⟨m, hm, rfl⟩ := List.mem_map.1 hb
+        exact absurd ⟨hla, hkc⟩ (hS m hm a)
+      · obtain ⟨f, hf, rfl⟩ := List.mem_map.1 hb
+        exact ⟨f, hf, rfl, ((hD f hf).2 a).2 ⟨hla, hkc⟩⟩
+  · rintro ⟨hE, hN⟩
+    refine ⟨fun f hf => ⟨hN f hf, fun a => ⟨fun ha => ?_, ?_⟩⟩, fun m hm a => ?_⟩
+    · have := (hE a f.model.name).1 ⟨f, hf, rfl, ha⟩
+      exact ⟨this.2.1, this.1⟩
+    · rintro ⟨hla, hkc⟩
+      obtain ⟨f', hf', hname, ha⟩ := (hE a f.model.name).2 ⟨hkc, hla, hdest f hf⟩
+      have : f' = f := eq_of_nodup_map (fun f : FuncU N => f.model.name) hnd'.2.1 hf' hf hname
+      exact this ▸ ha
+    · rintro ⟨hla, hkc⟩
+      obtain ⟨f', hf', hname, -⟩ := (hE a m.name).2 ⟨hkc, hla, hsrc m hm⟩
+      exact hnd'.2.2 m.name (List.mem_map_of_mem hm) f'.model.name (List.mem_map_of_mem hf') hname.symm
+
+/-- the retained-attributes clause of the checker -/
+theorem retainedClause_iff (ho : StrictTotal N) (g : DG N) (hn : g.names.Nodup) (m : UnitM N) :
+    (match g.unit? m.name with
+      | some x => decide (x.width = (m.width : Int)) && x.rd == m.rd && x.wr == m.wr && sortNames x.acl == sortNames m.acl
+      | none => false) = true ↔
+    ∃ x ∈ g.units, x.name = m.name ∧ x.width = (m.width : Int) ∧ x.rd = m.rd ∧ x.wr = m.wr ∧ List.Perm x.acl m.acl := by
+  constructor
+  · intro h
+    split at h
+    next x hx =>
+      have hx' := DG.unit?_some hx
+      simp only [Bool.and_eq_true, decide_eq_true_eq, beq_iff_eq] at h
+      exact ⟨x, hx'.1, hx'.2, h.1.1.1, h.1.1.2, h.1.2, (sortNames_eq_iff_perm ho).1 h.2⟩
+    · simp at h
+  · rintro ⟨x, hx, hname, h1, h2, h3, h4⟩
+    rw [← hname, DG.unit?_of_mem hn hx]
+    simp only [Bool.and_eq_true, decide_eq_true_eq, beq_iff_eq]
+    exact ⟨⟨⟨h1, h2⟩, h3⟩, (sortNames_eq_iff_perm ho).2 h4⟩
+
+/-- **`checkC10` decides `C10_Holds`** for a description whose unit names are pairwise different and whose
+connections contain no closed walk (`ho`: `<` is a strict total order on names, true for `String`). -/
+theorem checkC10_iff (ho : StrictTotal N) (d : Desc N) (p : Proc N) (hn : (d.units.map (·.name)).Nodup)
+    (ha : (dgOf fold d).rgAll.Acyclic) : checkC10 fold d p = true ↔ C10_Holds fold d p := by
+  have hn' : (dgOf fold d).names.Nodup := by rw [dgOf_names]; exact hn
+  have hc := dgOf_connIn fold d
+  have ht : ∀ u c, c ∈ capsIn (dgOf fold d).keptTable u ↔ (dgOf fold d).Feeds c u :=
+    fun _ _ => DG.mem_keptTable_iff hn' hc ha
+  have hk : ∀ a b, (dgOf fold d).keptConnT (dgOf fold d).keptTable a b = true ↔ (dgOf fold d).KeptConn a b :=
+    fun _ _ => DG.keptConnT_iff ht
+  have hl : ∀ u, u ∈ (dgOf fold d).liveIn (dgOf fold d).keptTable ↔ (dgOf fold d).Live u :=
+    fun _ => DG.mem_liveIn_iff ht hc ha
+  have c2 : sameSet (procNames p) ((dgOf fold d).liveIn (dgOf fold d).keptTable) = true ↔
+      ∀ u, u ∈ procNames p ↔ (dgOf fold d).Live u := by
+    rw [sameSet_iff]; exact forall_congr' fun u => by rw [hl]
+  have c3 : (p.allUnits.all (fun m => nodupB m.caps && sameSet m.caps (capsIn (dgOf fold d).keptTable m.name))) = true ↔
+      ∀ m ∈ p.allUnits, m.caps.Nodup ∧ ∀ c, c ∈ m.caps ↔ (dgOf fold d).Feeds c m.name := by
+    simp only [List.all_eq_true, Bool.and_eq_true, nodupB_iff, sameSet_iff, ht]
+  have c4 := fun m => retainedClause_iff ho (dgOf fold d) hn' m
+  have c5 := predsClause_iff (dgOf fold d) p hk hl
+  simp only [checkC10, allPass, clausesC10, List.all_cons, List.all_nil, Bool.and_true, Bool.and_eq_true]
+  rw [nodupB_iff, c2, c3]
+  constructor
+  · rintro ⟨h1, h2, h3, h4, h5, h6, h7⟩
+    have h5' := (c5 h1 h2).1 h5
+    exact { nodup := h1, unitsExact := h2, capsExact := h3
+            retained := fun m hm => (c4 m).1 (List.all_eq_true.1 h4 m hm)
+            predsExact := h5'.1, predsNodup := h5'.2
+            inputsOriginal := fun m hm => List.all_eq_true.1 h6 m hm
+            outputsOriginal := fun o ho' => List.all_eq_true.1 h7 o ho' }
+  · intro h
+    exact ⟨h.nodup, h.unitsExact, h.capsExact, List.all_eq_true.2 fun m hm => (c4 m).2 (h.retained m hm),
+      (c5 h.nodup h.unitsExact).2 ⟨h.predsExact, h.predsNodup⟩, List.all_eq_true.2 h.inputsOriginal,
+      List.all_eq_true.2 h.outputsOriginal⟩
 
 end Loader
 end ProcSim
